@@ -158,7 +158,9 @@ def gen_cases(ctx):
     for _ in range(400 if thorough else 40):
         cases.append(case_set_history(f"s{cid}", rng, nv=rng.randrange(3, 9), length=60)); cid += 1
     for _ in range(300 if thorough else 30):
+        # (2 and 8 workers: the *MT function types split subset0 / subset1 / change and the set operations)
         cases.append(ddgen.case_history(f"h{cid}", "zbdd", rng, nv=rng.randrange(3, 7), length=70, quant=False,
+                                        threads=rng.choice([1, 2, 8]),
                                         extra_ops=(zb_extra, zb_extra, zb_extra))); cid += 1
     return cases
 
